@@ -37,7 +37,7 @@ EXPECT_REACH = ['family.mitm', 'family.cred', 'family.plain', 'mitm.msg1', 'mitm
 INIT_MUT = ('flag_reserved', 'version_minor', 'msgid', 'exch', 'insert_unknown', 'insert_unknown_first', 'dup_payload', 'remove_vendor', 'reorder',
             'downgrade', 'foreign_proposal', 'reorder_transforms', 'nonce', 'nonce_len', 'ke', 'ke_group', 'spi_i', 'spi_r', 'inject_cookie',
             'inject_invalid_ke', 'reserved_octet', 'extra_notify', 'strip_ke')
-AUTH_MUT = ('id_data', 'id_type', 'auth_corrupt', 'auth_reflect', 'auth_guess_psk', 'auth_method', 'swap_id_payload_type', 'drop_auth',
+AUTH_MUT = ('id_data', 'id_type', 'auth_corrupt', 'auth_truncate', 'auth_extend', 'auth_reflect', 'auth_guess_psk', 'auth_method', 'swap_id_payload_type', 'drop_auth',
             'skip_auth_create_child', 'skip_auth_create_child', 'skip_auth_rekey_ike', 'skip_auth_informational')
 KNOWN = set(range(33, 47)) - {37, 38}
 
@@ -303,6 +303,11 @@ def run(scenario):
                     d = bytearray(au['data'])
                     d[r2.randrange(len(d))] ^= 1 << r2.randrange(8)
                     au['data'] = bytes(d)
+                elif kind == 'auth_truncate':
+                    # a prefix of the right value (down to nothing at all) is not the right value
+                    au['data'] = au['data'][:r2.choice([0, 0, 1, len(au['data']) // 2, len(au['data']) - 1])]
+                elif kind == 'auth_extend':
+                    au['data'] = au['data'] + bytes(r2.getrandbits(8) for _ in range(r2.choice([1, 4, 32])))
                 elif kind == 'auth_reflect':
                     other = state['peer_auth'].get(not h['R'])
                     if other is None:
